@@ -73,7 +73,7 @@ mut("R8", F, "\t\t/* Check if current publication time is after given time. */\n
     "\t\t/* Check if current publication time is after given time. */\n\t\tif (KSI_Integer_compare(pubTime, tm) < 0) {\n\t\t\t/* Check if current publication time is before the earliest so far. */",
     "h_pubfile.n1_pub,h_ext.pf_n2_nocal", "nearest publication: a publication exactly at the signing time no longer counts")
 mut("R9", V, "\t\tif (sigRightLink == NULL && extSigRightLink == NULL) {\n\t\t\t/* Match: both chains over at same time. */", "\t\tif (sigRightLink == NULL || extSigRightLink == NULL) {\n\t\t\t/* Match: both chains over at same time. */",
-    "h_cmp.cal_rl_c2_e2_d0_1,h_cmp.cal_rl_c1_e2_d0_2", "right links: a chain that ends earlier is accepted (count not compared)")
+    "h_cmp.cal_rl_c1_e1_d0_1,h_cmp.cal_rl_c1_e2_d0_2", "right links: a chain that ends earlier is accepted (count not compared)")
 mut("R10", V, "\tif (KSI_Integer_compare(aggregationChain->aggregationTime, extCalTime) != 0) {", "\tif (KSI_Integer_compare(aggregationChain->aggregationTime, extCalTime) > 0) {",
     "h_cmp.cal_ti_nocal_e1", "CAL-03: a later aggregation time in the extender chain is accepted")
 mut("R11", V, "\tif (!KSI_Integer_equals(aggrTime, extAggrTime)) {", "\tif (0) {",
